@@ -158,6 +158,9 @@ func (x *planExec) execOp(op *Op) {
 
 func (x *planExec) runRequest(t *Task, op *Op) *OpResult {
 	w := x.w
+	if op.Pad == 0 {
+		t.fuelScale = FuelScaleFor(op.plainBody())
+	}
 	if op.Inject != nil {
 		x.out.Stats.Faults["inject-"+op.Inject.Kind+"-panic"]++
 	}
@@ -286,7 +289,7 @@ func (x *planExec) finish(op *Op, res *OpResult) {
 	if exhausted {
 		x.out.OpDigests = append(x.out.OpDigests, op.ID+"=fuel")
 		x.violate("C20", "no-answer-within-step-budget", op.ID, "C20|fuel|"+method,
-			"request consumed the whole step budget (%d steps) without finishing: last site %s", DefaultFuel, x.w.SiteName(res.Rec.FuelSite))
+			"request consumed the whole step budget (%d steps) without finishing: last site %s", res.Rec.Fuel, x.w.SiteName(res.Rec.FuelSite))
 		return
 	}
 	x.out.OpDigests = append(x.out.OpDigests, op.ID+"="+respDigest(res))
